@@ -350,7 +350,12 @@ impl Run {
         }
         if let Some(obj) = coverage.as_object_mut() {
             if !obj.contains_key("samples") {
-                obj.insert("samples".into(), Value::Array(self.samples.lock().unwrap().clone()));
+                let s = self.samples.lock().unwrap().clone();
+                if s.is_empty() {
+                    eprintln!("MACHINERY ERROR: check {} recorded no sample case for its evidence", self.id);
+                    std::process::exit(3);
+                }
+                obj.insert("samples".into(), Value::Array(s));
             }
             let caps = self.caps_hit();
             if !caps.is_empty() {
